@@ -141,7 +141,8 @@ func (s *BadSmellListener) EnterInterfaceMethodDeclaration(ctx *InterfaceMethodD
 		}
 	}
 
-	methodBSInfo := bs_domain.NewMethodBadSmellInfo()
+	// default and static interface methods have a body: count its top-level if / switch statements as for class methods
+	methodBSInfo := buildMethodBSInfo(ctx.InterfaceCommonBodyDeclaration().(*InterfaceCommonBodyDeclarationContext).MethodBody(), bs_domain.NewMethodBadSmellInfo())
 
 	position := core_domain.CodePosition{
 		StartLine:         startLine,
@@ -234,7 +235,7 @@ func (s *BadSmellListener) EnterMethodDeclaration(ctx *MethodDeclarationContext)
 	}
 
 	methodBSInfo := bs_domain.NewMethodBadSmellInfo()
-	methodBadSmellInfo := buildMethodBSInfo(ctx, methodBSInfo)
+	methodBadSmellInfo := buildMethodBSInfo(ctx.MethodBody(), methodBSInfo)
 
 	position := core_domain.CodePosition{
 		StartLine:         startLine,
@@ -277,8 +278,7 @@ func getModifier(ctx *MethodDeclarationContext) string {
 	return modifier
 }
 
-func buildMethodBSInfo(context *MethodDeclarationContext, bsInfo bs_domain.FunctionBSInfo) bs_domain.FunctionBSInfo {
-	methodBody := context.MethodBody()
+func buildMethodBSInfo(methodBody IMethodBodyContext, bsInfo bs_domain.FunctionBSInfo) bs_domain.FunctionBSInfo {
 	blockContext := methodBody.GetChild(0)
 	if reflect.TypeOf(blockContext).String() == "*parser.BlockContext" {
 		blcStatement := blockContext.(*BlockContext).AllBlockStatement()
